@@ -34,6 +34,8 @@ class NodeStub:
         self.inputs, self.outputs = {}, {}
         self.step_calls = []
         self._async_now = None
+        self.info = ("info", name)
+        self.delay_dist = type("D", (), {"mean": staticmethod(lambda: 1.0)})()
 
     @property
     def phase(self):
@@ -200,6 +202,63 @@ def mk_node(V, rec, name, rate, phase=0, advance=False, scheduling=None, clock=N
     w._step_state = base.StepState(rng=("rng", name), state=("state", name, "init"), params=("params", name), inputs={}, eps=eps, seq=SeqD(init_seq), ts=zero(V))  # _reset takes the step state of the graph state it is handed: its seq need not be 0
     w._submit = rec.submit_for(w)
     return w
+
+
+class _GS:
+    def __init__(self, step_state):
+        self.step_state = step_state
+
+
+def real_reset_start(V, nodes, start=None, keep_tokens=False):
+    """Bring stub-built wrappers to the RUNNING state through the code under test: the real _AsyncNodeWrapper._reset (which resets every
+    input through the real _AsyncConnectionWrapper.reset) and ._start (which starts every input), so that the initial drift, the initial
+    'end of the previous step', the FIFO floor, the phases, the tick counters and the queues are rex's, not the harness's.  Only the
+    jitted delay-distribution reset and jax.random.split (of the opaque rng tag) are stubs.  Must be called before a harness pre-fills
+    any queue.  Returns the number of tick tokens _start queued per node."""
+    import rex.asynchronous as A
+    from rex.constants import Async
+
+    class _Rnd:
+        @staticmethod
+        def split(rng, num=2):
+            return [("split", rng, i) for i in range(num)]
+
+    old_rnd = A.rnd
+    A.rnd = _Rnd
+    try:
+        return _real_reset_start(V, nodes, start, keep_tokens, Async)
+    finally:
+        A.rnd = old_rnd
+
+
+def _real_reset_start(V, nodes, start, keep_tokens, Async):
+    toks = {}
+    for w in nodes:
+        w._state = Async.STOPPED
+        w._eps -= 1
+        w._jit_reset = lambda rng: "dist_state"
+        for c in w.inputs.values():
+            c._state = Async.STOPPED
+            c._jit_reset = lambda rng: "dist_state"
+        ss = w._step_state
+        try:
+            w._reset(_GS({w.node.name: ss}), clock=w._clock, real_time_factor=w._real_time_factor)
+        except (ValueError, NotImplementedError):
+            # rex refuses advance=True without blocking inputs on the simulated clock; such a node only runs on the wall clock, whose
+            # time source the harness replaces by the simulated one: run the same reset with the guard's precondition lifted
+            adv = w.node.advance
+            w.node.advance = False
+            try:
+                w._reset(_GS({w.node.name: ss}), clock=w._clock, real_time_factor=w._real_time_factor)
+            finally:
+                w.node.advance = adv
+    for w in nodes:
+        w._state = Async.READY_TO_START
+        w._start(zero(V) if start is None else start)
+        toks[w.node.name] = len(w.q_tick)
+        if not keep_tokens:
+            w.q_tick.clear()
+    return toks
 
 
 NODE_ATTRS_SET = ["node", "outputs", "inputs", "_record_setting", "_max_records", "_num_buffer", "_jit_reset", "_jit_sample", "_has_warmed_up",
